@@ -27,10 +27,16 @@ class TempDir:
         return self
 
     def new(self, data: bytes) -> str:
+        # the same bytes give the same file within one case, so that two operands can share a source file
+        if not hasattr(self, 'cache'):
+            self.cache = {}
+        if data in self.cache:
+            return self.cache[data]
         self.n += 1
         p = os.path.join(self.path, f'f{self.n}.bin')
         with open(p, 'wb') as f:
             f.write(data)
+        self.cache[data] = p
         return p
 
     def __exit__(self, *a):
